@@ -23,7 +23,6 @@ from enum import Enum
 from struct import Struct, error as StructError, pack
 from uuid import UUID, uuid4 as get_uuid
 import builtins
-import collections
 import copy
 import io
 import re
@@ -1480,7 +1479,7 @@ class Element(Mapping[str, Attribute]):
         # This is a (attr, index, uuid, line_num) tuple.
         fixups: list[tuple[Attribute, Optional[int], UUID, int]] = []
         # Ensure these reuse the same objects.
-        stubs: dict[UUID, StubElement] = collections.defaultdict(StubElement.stub)
+        stubs: dict[UUID, StubElement] = _StubDict()
 
         elements = []
 
@@ -2150,6 +2149,13 @@ class StubElement(Element):
             return '<Null Element>'
         else:
             raise AssertionError(self._type)
+
+
+class _StubDict(dict[UUID, StubElement]):
+    """Creates stub elements on demand, so each UUID always maps to a single stub object."""
+    def __missing__(self, uuid: UUID) -> StubElement:
+        self[uuid] = stub = StubElement.stub(uuid)
+        return stub
 
 
 # Constant for null elements.
